@@ -103,7 +103,7 @@ UNIT_DRIVERS = {
     "recovery_flush": ["wal::crash_enum_quick"],
     "scan_filter_back": ["transaction::cursor_enum_quick"],
     "bptree_node": ["bptree_enum_quick"],
-    "history_filter": ["snapshot::timetravel_enum_quick"],
+    "history_window": ["snapshot::timetravel_enum_quick"],
     "pipeline_failure": ["commit::fault_enum"],
     "restore_protocol": ["levels::checkpoint_enum_quick"],
     "dir_lock": ["exclusive_enum_quick"],
